@@ -2,13 +2,15 @@
 
    (form idx N pnames kids ptabs ktabs)        form 0 union rule, 1 product rule,
         2 reverse of the union w.r.t. idx (Complement), 3 reverse of the product (Quotient),
-        4 equivalence rule of the union, 5 equivalence rule of the reverse (w.r.t. idx) of the union
+        4 equivalence rule of the union, 5 equivalence rule of the reverse (w.r.t. idx) of the union,
+        7 equivalence rule of the product (one factor: fix 25e10f1), 8 equivalence rule of the reverse of the product
      pnames = extra_parameters of the ORIGINAL rule's parent (names are integers)
      kids   = ((names dict min_size is_atom is_empty) ...), dict = ((parent_var child_var) ...)
      ptabs  = (table_0 table_1 ...) true terms of the original parent by size,
      ktabs  = one such list per original child; table = ((params value) ...) in iteration order
-   (6 0 N steps tabs)    EquivalencePathRule: steps = ((reverse? pnames kids idx) ...) original
-                         union rules of the chain, tabs = true terms of the last class
+   (6 0 N steps tabs)    EquivalencePathRule: steps = ((kind pnames kids idx) ...) original
+                         rules of the chain (kind 0 union, 1 reverse of a union, 2 RAW one-factor
+                         product rule, 3 its RAW reverse), tabs = true terms of the last class
    answer: ((canonical table of level 0, 1, ...) error) — levels computed before the
    first exception, error = () or the exception code                                    *)
 From Coq Require Import ZArith List Bool.
@@ -26,6 +28,9 @@ Definition dec_kid (s : sx) : kid :=
 Definition dec_kids (s : sx) : list kid := map dec_kid (sx_list s).
 Definition dec_step (s : sx) : step_desc :=
   (sx_bool (sx_nth s 0), sx_Zs (sx_nth s 1), dec_kids (sx_nth s 2), sx_nat (sx_nth s 3)).
+(* typed steps (fix 25e10f1): the first field is the kind 0..3 *)
+Definition dec_kstep (s : sx) : kstep :=
+  (sx_Z (sx_nth s 0), sx_Zs (sx_nth s 1), dec_kids (sx_nth s 2), sx_nat (sx_nth s 3)).
 
 Definition enc_table (t : terms) : sx :=
   L (map (fun e : entry => L [of_Zs (fst e); I (snd e)]) (tnorm t)).
@@ -38,7 +43,7 @@ Definition run_c09 (inp : sx) : sx :=
   let idx := sx_nat (sx_nth inp 1) in
   let N := sx_Z (sx_nth inp 2) in
   if form =? 6 then
-    enc_levels (levels (path_step (map dec_step (sx_list (sx_nth inp 3))) (dec_tables (sx_nth inp 4))) N)
+    enc_levels (levels (path_step_k (map dec_kstep (sx_list (sx_nth inp 3))) (dec_tables (sx_nth inp 4))) N)
   else
     let pnames := sx_Zs (sx_nth inp 3) in
     let kids := dec_kids (sx_nth inp 4) in
@@ -51,6 +56,8 @@ Definition run_c09 (inp : sx) : sx :=
       | 2 => complement_step pnames kids idx ptabs ktabs
       | 3 => quotient_step pnames kids idx ptabs ktabs
       | 4 => equiv_union_step pnames kids ktabs
+      | 7 => equiv_product_step pnames kids ktabs
+      | 8 => equiv_quotient_step
       | _ => equiv_complement_step pnames kids idx ptabs
       end in
     enc_levels (levels step N).
